@@ -196,6 +196,11 @@ func (handler *Handler) loadByteArray(source []byte) (net1 *dhcpSubnet, net2 *dh
 		}
 	}
 
+	// a file without both subnets (truncated or damaged) cannot be used: the leases refer to them
+	if net1 == nil || net2 == nil {
+		return nil, nil, nil, fmt.Errorf("missing subnet configuration: %w", packet.ErrInvalidIP)
+	}
+
 	tt := map[string]*Lease{}
 
 	// Careful: Yaml does not set private fields in unmarshaled structured.
